@@ -295,7 +295,10 @@ func runCase(s *Schema, e Edit) (c kit.Case, ok bool, err error) {
 		return c, false, nil
 	}
 	cerrs := ac.CheckBackwardCompatibility(oldApp, newApp)
-	oldT, newT := buildTree(oldApp), buildTree(newApp)
+	oldT, newT := realTree(oldApp), realTree(newApp)
+	if !oldT.equal(transcribedTree(oldApp)) || !newT.equal(transcribedTree(newApp)) {
+		return c, false, fmt.Errorf("the harness transcription of buildTree differs from appdefcompat.VerifBuildTree (edit %+v)", e)
+	}
 
 	d := &caseDesc{Schema: s, Edit: e, Claim: &claim, OldNodes: oldT.count(), NewNodes: newT.count()}
 	var terms []string
